@@ -622,13 +622,92 @@ func run(c Case) *hx.Outcome {
 	return o
 }
 
-func TestProp(t *testing.T)    { prop.Check(t) }
-func TestRegress(t *testing.T) { prop.Regress(t) }
+// ---- quitdrain: what a session was told +OK for is done when Drain returns ----
+
+type QCase struct {
+	Backend string `json:"backend"`
+	N       int    `json:"n"`     // messages in the mailbox
+	Marks   int    `json:"marks"` // how many of them the session marks (the first Marks)
+}
+
+var propQuitDrain = hx.Prop[QCase]{
+	ID: pid, Name: "quitdrain",
+	Rule: "a POP3 session on a mailbox of 5-80 messages (mem or file store) marks 1..all of them; POP3Server.Drain is started (it must not return while the " +
+		"session is open), the session sends QUIT and reads +OK; at the very moment Drain returns - which is when the process would exit - the marked " +
+		"messages must be gone and the others there, without any waiting; non-trivial = at least 20 deletions on the file store; distinct = distinct case JSON",
+	Quick: 30, Thorough: 300,
+	Gen: func(t *rapid.T) QCase {
+		c := QCase{Backend: rapid.SampledFrom([]string{"file", "file", "mem"}).Draw(t, "backend"), N: rapid.SampledFrom([]int{5, 20, 80}).Draw(t, "n")}
+		c.Marks = rapid.SampledFrom([]int{1, c.N / 2, c.N}).Draw(t, "marks")
+		return c
+	},
+	Run: func(c QCase) *hx.Outcome {
+		o := &hx.Outcome{}
+		cfg := hx.DefaultCfg()
+		cfg.Backend, cfg.NoHTTP = c.Backend, true
+		w, err := hx.NewWorld(cfg)
+		if err != nil {
+			o.Failf(pid+":harness", "world: %v", err)
+			return o
+		}
+		defer w.Close()
+		for i := 0; i < c.N; i++ {
+			if _, err := w.Store.AddMessage(hx.NewDelivery("qbox", nil, nil, hx.BaseTime, "q", []byte(fmt.Sprintf("message %d", i)))); err != nil {
+				o.Failf(pid+":harness", "AddMessage: %v", err)
+				return o
+			}
+		}
+		pc, _, err := w.DialPOP3()
+		if err != nil {
+			o.Failf(pid+":harness", "dial: %v", err)
+			return o
+		}
+		defer pc.Close()
+		if pr, err := pc.Login("qbox"); err != nil || !pr.OK {
+			o.Failf(pid+":harness", "login: %v %v", pr, err)
+			return o
+		}
+		for i := 1; i <= c.Marks; i++ {
+			if pr, err := pc.Cmd(fmt.Sprintf("DELE %d", i), false); err != nil || !pr.OK {
+				o.Failf(pid+":harness", "DELE %d: %v %v", i, pr, err)
+				return o
+			}
+		}
+		drained := make(chan struct{})
+		go func() { w.POP3.Drain(); close(drained) }()
+		select {
+		case <-drained:
+			o.Failf(pid+":drain-early", "POP3Server.Drain returned while a session with %d marked messages is still open", c.Marks)
+			return o
+		case <-time.After(20 * time.Millisecond):
+		}
+		if pr, err := pc.Cmd("QUIT", false); err != nil || !pr.OK {
+			o.Failf(pid+":session-cut", "QUIT answered %v (err %v)", pr, err)
+			return o
+		}
+		select {
+		case <-drained:
+		case <-time.After(hx.ReplyTimeout):
+			o.Failf(pid+":drain-blocked", "POP3Server.Drain did not return within %v after the session's QUIT was answered", hx.ReplyTimeout)
+			return o
+		}
+		ms, err := w.Store.GetMessages("qbox")
+		if err != nil || len(ms) != c.N-c.Marks {
+			o.Failf(pid+":pop3-deletes-lost", "[%s] when Drain returned, the mailbox held %d messages; the session had marked %d of %d and was answered +OK on QUIT (err %v)", c.Backend, len(ms), c.Marks, c.N, err)
+		}
+		o.NonTrivial = c.Backend == "file" && c.Marks >= 20
+		o.Class("backend " + c.Backend)
+		return o
+	},
+}
+
+func TestProp(t *testing.T)    { prop.Check(t); propQuitDrain.Check(t) }
+func TestRegress(t *testing.T) { prop.Regress(t); propQuitDrain.Regress(t) }
 func TestReplay(t *testing.T) {
 	if *hx.ReplayPath == "" {
 		t.Skip("no -replay")
 	}
-	if !prop.Replay(t, *hx.ReplayPath) {
+	if !prop.Replay(t, *hx.ReplayPath) && !propQuitDrain.Replay(t, *hx.ReplayPath) {
 		t.Fatalf("no prop matches %s", *hx.ReplayPath)
 	}
 }
